@@ -21,8 +21,10 @@ CLAIM = dict(
          "contributes start + j/(nk-1)(end-start), j < nk-1, and is followed by its end node; a node before None is "
          "stored once and its index is a break; the refined path contains original point i at index phi(i) = sum of "
          "(1 at a break, factor otherwise), with the same label and break marks, nothing else is labelled, and the "
-         "points between phi(i) and phi(i+1) are the uniform subdivision; the path coordinate starts at 0, is "
-         "non-decreasing and constant across breaks; concatenating the batches of get_K_list gives K_list for every "
+         "points between phi(i) and phi(i+1) are the uniform subdivision; the path coordinate is the ARC LENGTH: entry i is "
+         "the sum of the first i step lengths (steps at breaks / above break_thresh count 0) whatever the labels are, so "
+         "it starts at 0, is non-decreasing and constant across breaks (the chord-length rule is shown to be a "
+         "different, non-monotone function on a two-segment path); concatenating the batches of get_K_list gives K_list for every "
          "batch size, every batch has at most k_batch points and none is empty; self_to_path maps every path point to a "
          "result point equal to it modulo a reciprocal lattice vector whenever one exists (the first such), so a "
          "result computed in ANY completion order is returned in path order.",
@@ -43,7 +45,9 @@ RULE = ("corr: random node lists (2-6 nodes, None breaks, repeated nodes, coordi
         "random permutations with integer shifts and duplicates.  oracle: the same classes on the real code checked "
         "against the statement, plus evaluate_k_path vs evaluate_k on random Hermitian systems (energy, band gradients, "
         "Berry curvature), serial and stub-parallel with random completion order, k_batch from 1 to beyond the path "
-        "length.  non-trivial = path with >= 2 segments or a break; distinct = distinct (op, inputs)")
+        "length; getKline / get_refined additionally on every other public constructor: Path(k_list, labels full / "
+        "partial / ends only / empty / None, breaks), Path.from_dict(as_dict), Path.sphere, Path.spheroid, Path.seekpath "
+        "(increments compared with independently computed Cartesian step lengths, with and without break_thresh).  non-trivial = path with >= 2 segments or a break; distinct = distinct (op, inputs)")
 
 TOL = 1e-12
 
@@ -213,7 +217,8 @@ def _corr_case_body(ctx, rng, add):
                                                  labels={int(k): v for k, v in p.labels.items()}, breaks=list(p.breaks),
                                                  labmap=labmap), "refine")
     # ---- getKline (the Cartesian distances are the external kernel: computed here with the same float formula)
-    for q in (p, p2):
+    extra = [q for _, q, _ in other_paths(ctx, rng, recip)]
+    for q in [p, p2] + extra:
         q_recip = q.recip_lattice
         kc = np.array(q.K_list).dot(q_recip)
         dist = np.linalg.norm(kc[1:] - kc[:-1], axis=1)
@@ -375,9 +380,9 @@ def check_refined(ctx, p, p2, factor, case):
     for i in range(n):
         if not np.array_equal(K2[phi[i]], K[i]):
             ctx.fail(f"get_refined({factor}): original point {i} is not at refined index {phi[i]}", case); return
-    want_labels = {phi[i]: l for i, l in p.labels.items()}
-    if dict(p2.labels) != want_labels:
-        ctx.fail(f"get_refined({factor}): labels {dict(p2.labels)} expected {want_labels}", case); return
+    want_labels = {phi[i]: l for i, l in label_dict(p).items()}
+    if label_dict(p2) != want_labels:
+        ctx.fail(f"get_refined({factor}): labels {label_dict(p2)} expected {want_labels}", case); return
     if sorted(p2.breaks) != sorted(phi[i] for i in p.breaks):
         ctx.fail(f"get_refined({factor}): breaks {list(p2.breaks)} expected {[phi[i] for i in p.breaks]}", case); return
     for i in range(n - 1):
@@ -391,19 +396,115 @@ def check_refined(ctx, p, p2, factor, case):
         ctx.fail(f"get_refined({factor}): the refined path has a different reciprocal lattice", case)
 
 
-def check_kline(ctx, p, case, what):
+def check_kline(ctx, p, case, what, break_thresh=None):
+    """the path coordinate is the ARC LENGTH: starts at 0, never decreases, advances from each point to the next by
+    the Cartesian distance of the two points (independently computed), and not at all across a break / a jump
+    larger than break_thresh"""
     with quiet():
-        kl = p.getKline()
+        kl = p.getKline() if break_thresh is None else p.getKline(break_thresh=break_thresh)
     K = np.array(p.K_list)
-    if len(kl) != len(K) or kl[0] != 0:
+    if len(kl) != len(K) or (len(kl) and kl[0] != 0):
         ctx.fail(f"getKline ({what}): wrong length or non-zero start", case); return
     if np.any(np.diff(kl) < 0):
-        ctx.fail(f"getKline ({what}): the path coordinate decreases", case); return
+        i = int(np.argmin(np.diff(kl)))
+        ctx.fail(f"getKline ({what}): the path coordinate decreases between points {i} and {i + 1}: "
+                 f"{kl[i]:.6f} -> {kl[i + 1]:.6f}", case); return
     kc = K.dot(p.recip_lattice)
+    breaks = set(int(b) for b in p.breaks)
     for i in range(len(K) - 1):
-        want = 0.0 if i in p.breaks else float(np.linalg.norm(kc[i + 1] - kc[i]))
+        step = float(np.linalg.norm(kc[i + 1] - kc[i]))
+        if break_thresh is not None and abs(step - break_thresh) < 1e-9:
+            return
+        want = 0.0 if (i in breaks or (break_thresh is not None and step > break_thresh)) else step
         if abs((kl[i + 1] - kl[i]) - want) > 1e-10 * (1 + kl[-1]):
-            ctx.fail(f"getKline ({what}): step {i} is {kl[i + 1] - kl[i]:.6g}, expected {want:.6g}", case); return
+            ctx.fail(f"getKline ({what}): the coordinate advances by {kl[i + 1] - kl[i]:.6g} from point {i} to {i + 1}, "
+                     f"the distance of the two points is {want:.6g}", case); return
+
+
+def label_dict(p):
+    return dict(p.labels) if isinstance(p.labels, dict) else {}
+
+
+def polyline(rng, nleg=None):
+    """explicit k-list through random corners (legs may double back); returns (array, corner indices)"""
+    nleg = nleg or rng.randint(1, 4)
+    corners = [rand_point(rng, den=8, lo=-1, hi=1)]
+    for _ in range(nleg):
+        corners.append(rand_point(rng, den=8, lo=-1, hi=1) if rng.random() < 0.8 else corners[rng.randrange(len(corners))])
+    pts, idx = [np.array([float(c) for c in corners[0]])], [0]
+    for a, b in zip(corners, corners[1:]):
+        m = rng.randint(1, 6)
+        af, bf = np.array([float(c) for c in a]), np.array([float(c) for c in b])
+        for j in range(1, m + 1):
+            pts.append(af + (bf - af) * j / m)
+        idx.append(len(pts) - 1)
+    return np.array(pts), idx
+
+
+def other_paths(ctx, rng, recip):
+    """paths from the public constructors other than from_nodes: (description, path, case)"""
+    from wannierberri.grid.path import Path
+    out = []
+    # ---- explicit k_list with full / partial / empty labels and optional breaks
+    K, corners = polyline(rng)
+    n = len(K)
+    kind = rng.choice(["full", "partial", "partial", "ends", "empty", "random_points"])
+    if kind == "random_points":
+        K = np.array([[float(c) for c in rand_point(rng, den=16, lo=-1, hi=1)] for _ in range(rng.randint(2, 9))])
+        n, corners = len(K), []
+    if kind == "full":
+        labels = {i: f"C{i}" for i in corners}
+    elif kind == "ends":
+        labels = {0: "start", n - 1: "end"}
+    elif kind == "empty":
+        labels = rng.choice([None, {}])
+    else:
+        labels = {i: f"P{i}" for i in sorted(rng.sample(range(n), rng.randint(1, min(n, 3))))}
+    breaks = sorted(rng.sample(range(n - 1), rng.randint(1, min(2, n - 1)))) if (n > 2 and rng.random() < 0.4) else []
+    with quiet():
+        p = Path(recip_lattice=recip, k_list=K, labels=labels, breaks=list(breaks))
+    out.append((f"Path(k_list, labels={kind}, breaks={breaks})", p,
+                dict(constructor="Path(k_list=...)", k_list=K.tolist(), labels=labels, breaks=breaks,
+                     recip_lattice=recip.tolist())))
+    if isinstance(labels, dict) and rng.random() < 0.5:
+        with quiet():
+            p_rt = Path.from_dict(p.as_dict())
+        out.append((f"Path.from_dict(as_dict) of a k_list path (labels={kind})", p_rt,
+                    dict(constructor="Path.from_dict", k_list=K.tolist(), labels=labels, breaks=breaks,
+                         recip_lattice=recip.tolist())))
+    # ---- sphere / spheroid
+    if rng.random() < 0.5:
+        r1, r2 = rng.choice([0.05, 0.1, 0.3]), rng.choice([0.05, 0.2])
+        nt, nph = rng.randint(2, 6), rng.randint(2, 7)
+        origin = rng.choice([None, np.array([0.25, 0.0, 0.125])])
+        with quiet():
+            if rng.random() < 0.5:
+                p = Path.sphere(recip_lattice=recip, r1=r1, ntheta=nt, nphi=nph, origin=origin)
+                what = f"Path.sphere(r1={r1}, ntheta={nt}, nphi={nph})"
+            else:
+                p = Path.spheroid(recip_lattice=recip, r1=r1, r2=r2, ntheta=nt, nphi=nph, origin=origin)
+                what = f"Path.spheroid(r1={r1}, r2={r2}, ntheta={nt}, nphi={nph})"
+        out.append((what, p, dict(constructor=what, origin=None if origin is None else origin.tolist(),
+                                  recip_lattice=recip.tolist())))
+    return out
+
+
+SEEK_CELLS = [
+    ("fcc", [[0, 2.7, 2.7], [2.7, 0, 2.7], [2.7, 2.7, 0]], [[0, 0, 0], [0.25, 0.25, 0.25]], [14, 14]),
+    ("hex", [[2.5, 0, 0], [-1.25, 2.1650635094610966, 0], [0, 0, 4.0]], [[1 / 3, 2 / 3, 0.25], [2 / 3, 1 / 3, 0.75]], [6, 6]),
+    ("tet", [[3.0, 0, 0], [0, 3.0, 0], [0, 0, 4.5]], [[0, 0, 0]], [29]),
+    ("ort", [[3.0, 0, 0], [0, 3.7, 0], [0, 0, 4.5]], [[0, 0, 0], [0.5, 0.5, 0.25]], [29, 8]),
+]
+
+
+def seekpath_paths(ctx, rng):
+    from wannierberri.grid.path import Path
+    name, lat, pos, num = rng.choice(SEEK_CELLS)
+    dk = rng.choice([0.2, 0.35, 0.6])
+    with quiet(), warnings.catch_warnings():
+        warnings.simplefilter("ignore")
+        p = Path.seekpath(lattice=np.array(lat), positions=np.array(pos), numbers=num, dk=dk)
+    return [(f"Path.seekpath({name} cell, dk={dk})", p, dict(constructor="Path.seekpath", cell=name, dk=dk))]
 
 
 class StubRay:
@@ -569,6 +670,28 @@ def oracle(ctx, scale):
             if not np.array_equal(cat, np.array(p2.K_list)) or any(len(kp.K) == 0 or len(kp.K) > kb for kp in KL):
                 ctx.fail(f"get_K_list(k_batch={kb}): the batches do not concatenate to K_list / wrong batch sizes "
                          f"{[len(kp.K) for kp in KL]}", dict(case, k_batch=kb))
+    # ---- every other public way of building a path: the coordinate must be the arc length there too
+    for it in range(ctx.n(120, 1200) * scale):
+        recip = rand_recip(rng)
+        with ctx.attempt("Path constructors / getKline / get_refined", dict(seed=ctx.seed, iteration=it)):
+            plist = other_paths(ctx, rng, recip)
+            if it % ctx.n(30, 30) == 0:
+                plist += seekpath_paths(ctx, rng)
+            for what, p, case in plist:
+                ctx.case(signature=("kline", what, np.array(p.K_list).round(9).tobytes()), nontrivial=len(p.K_list) > 2)
+                ctx.count("oracle.constructor." + what.split("(")[0] + ("" if "labels=" not in what else
+                                                                        "." + what.split("labels=")[1].split(",")[0].rstrip(")")))
+                check_kline(ctx, p, case, what)
+                if len(p.K_list) > 1:
+                    kc = np.array(p.K_list).dot(p.recip_lattice)
+                    steps = np.linalg.norm(kc[1:] - kc[:-1], axis=1)
+                    check_kline(ctx, p, dict(case, break_thresh=float(np.median(steps)) * 1.5), what + " with break_thresh",
+                                break_thresh=float(np.median(steps)) * 1.5)
+                factor = rng.choice([1, 2, 3, 5])
+                with quiet():
+                    p2 = p.get_refined(factor)
+                check_refined(ctx, p, p2, factor, dict(case, factor=factor))
+                check_kline(ctx, p2, dict(case, factor=factor), f"get_refined({factor}) of " + what)
     eval_oracle(ctx, scale)
 
 
